@@ -913,8 +913,12 @@ Definition handle_from_idle (cfg : ocfg) (s : ostate) (from : N) (bc : option bc
           let '(s1, r, o1) := handle_non_read cfg s fn seq frame_id bytes hdrs in finish s1 r None false o1
       | FtRepeatNonRead last =>
           let s1 := match s_select s with
-                    | Some sel => upd_select s (Some {| ss_seq := ss_seq sel; ss_frame_id := frame_id;
-                                                        ss_time := ss_time sel; ss_objects := ss_objects sel |})
+                    | Some sel =>
+                        (* SelectState::update_frame_id: only a retransmission directly after the select *)
+                        if (ss_frame_id sel + 1) mod 4294967296 =? frame_id
+                        then upd_select s (Some {| ss_seq := ss_seq sel; ss_frame_id := frame_id;
+                                                   ss_time := ss_time sel; ss_objects := ss_objects sel |})
+                        else s
                     | None => s
                     end in
           finish s1 last None true []
